@@ -224,9 +224,10 @@ def parse_rvalue(s):
             return ("raw", s)
         return ("aggregate", "array", [parse_operand(a) for a in split_top(inner)])
     # enum variant / struct constructor:  Path::Variant(ops)  |  Path { f: op, .. }
-    m = re.match(r"^([\w:<>,&' \[\]\{\}@/\.\-#\(\)\*;]+?)\((.*)\)$", s, re.S)
-    if m and re.search(r"::\w+$", m.group(1).strip()) and not m.group(1).strip().startswith("const"):
-        return ("aggregate", m.group(1).strip(), [parse_operand(a) for a in split_top(m.group(2))])
+    if s.endswith(")") and not s.startswith(("const ", "copy ", "move ")):
+        for idx in [i for i, c in enumerate(s) if c == "("]:
+            if match_paren(s, idx) == len(s) - 1 and re.search(r"::\w+$", s[:idx].strip()):
+                return ("aggregate", s[:idx].strip(), [parse_operand(a) for a in split_top(s[idx + 1:-1])])
     m = re.match(r"^(.+?)\s*\{(.*)\}$", s, re.S)
     if m and not s.startswith("{"):
         fields = []
